@@ -64,15 +64,22 @@ def shapes_of(src):
                 for m in ast.walk(st):
                     if isinstance(m, (ast.FunctionDef, ast.AsyncFunctionDef, ast.Lambda, ast.ClassDef)) and m is not st:
                         pass
+                aug = _aug_targets(n)
                 for m in _class_level_names(st):
-                    if isinstance(m.ctx, ast.Load) and m.id not in seen_bind:
+                    # (the target of an augmented assignment is read before it is written)
+                    if (isinstance(m.ctx, ast.Load) or id(m) in aug) and m.id not in seen_bind:
                         # read before any class-level assignment: later assigned in this class body?
                         if any(isinstance(x, ast.Name) and isinstance(x.ctx, ast.Store) and x.id == m.id
                                for st2 in n.body for x in _class_level_names(st2)):
                             s.add('class-read-before-assign')
-                    elif isinstance(m.ctx, ast.Store):
+                    if isinstance(m.ctx, ast.Store):
                         seen_bind.add(m.id)
     return sorted(s)
+
+
+def _aug_targets(cls):
+    """ids of the Name nodes that are targets of augmented assignments anywhere below a class (read, then written)"""
+    return set(id(a.target) for a in ast.walk(cls) if isinstance(a, ast.AugAssign) and isinstance(a.target, ast.Name))
 
 
 def _class_level_names(stmt):
@@ -172,12 +179,13 @@ def class_fallthrough(src, out):
         if isinstance(n, ast.ClassDef):
             seen = set()
             for st in n.body:
+                aug = _aug_targets(n)
                 for m in _class_level_names(st):
-                    if isinstance(m.ctx, ast.Load) and m.id not in seen and m.id in pbound and m.id not in qbound:
+                    if (isinstance(m.ctx, ast.Load) or id(m) in aug) and m.id not in seen and m.id in pbound and m.id not in qbound:
                         if any(isinstance(x, ast.Name) and isinstance(x.ctx, ast.Store) and x.id == m.id
                                for st2 in n.body for x in _class_level_names(st2)):
                             probs.append('class-level read of %s falls through to the global %s, which the output renamed' % (m.id, m.id))
-                    elif isinstance(m.ctx, ast.Store):
+                    if isinstance(m.ctx, ast.Store):
                         seen.add(m.id)
     return probs
 
